@@ -1,6 +1,7 @@
 package gf
 
 import (
+	"os"
 	"sort"
 	"strings"
 )
@@ -40,6 +41,7 @@ type Disj struct {
 	canonFor string
 	canonD   *Disj
 	canonRep map[string]*Term
+	canonBad bool
 }
 
 func newDisj() *Disj { return &Disj{L: map[string]Lit{}} }
@@ -147,6 +149,11 @@ func (d *Disj) feasible() bool {
 					}
 				}
 			}
+		}
+	}
+	if congruence {
+		if d.canonical(); d.canonBad {
+			return false
 		}
 	}
 	return newBounds(d).consistent()
@@ -527,6 +534,7 @@ func (d *Disj) canonical() (*Disj, map[string]*Term) {
 	if k := d.Key(); d.canonFor == k {
 		return d.canonD, d.canonRep
 	}
+	d.canonBad = false
 	cd, rep := d.canonical0()
 	d.canonFor, d.canonD, d.canonRep = d.Key(), cd, rep
 	return cd, rep
@@ -575,28 +583,50 @@ func (d *Disj) canonical0() (*Disj, map[string]*Term) {
 	for _, l := range d.L {
 		na := rewriteAtom(l.A, rep)
 		fm := foldAtom(na)
-		if fm.Op != 'A' {
+		switch fm.Op {
+		case 'T':
+			if l.Neg {
+				d.canonBad = true
+			}
 			continue
+		case 'F':
+			if !l.Neg {
+				d.canonBad = true
+			}
+			continue
+		}
+		if old, ok := out.L[na.key]; ok && old.Neg != l.Neg {
+			d.canonBad = true // the same fact, modulo the equalities, asserted and denied
 		}
 		out.L[na.key] = Lit{A: na, Neg: l.Neg}
 	}
 	return out, rep
 }
 
-func rewriteTerm(t *Term, rep map[string]*Term) *Term {
+func rewriteTerm(t *Term, rep map[string]*Term) *Term { return rewriteTermD(t, rep, 0) }
+
+func rewriteTermD(t *Term, rep map[string]*Term, depth int) *Term {
 	if t == nil {
 		return nil
 	}
-	if r, ok := rep[t.key]; ok {
-		return r
+	if depth > 6 {
+		return t
 	}
+	if r, ok := rep[t.key]; ok && r.key != t.key {
+		// the representative's own subterms are rewritten too (it is the root of its class, so it stays itself at the top)
+		return rewriteArgs(r, rep, depth+1)
+	}
+	return rewriteArgs(t, rep, depth)
+}
+
+func rewriteArgs(t *Term, rep map[string]*Term, depth int) *Term {
 	if len(t.A) == 0 {
 		return t
 	}
 	changed := false
 	args := make([]*Term, len(t.A))
 	for i, a := range t.A {
-		args[i] = rewriteTerm(a, rep)
+		args[i] = rewriteTermD(a, rep, depth+1)
 		if args[i] != a {
 			changed = true
 		}
@@ -606,8 +636,8 @@ func rewriteTerm(t *Term, rep map[string]*Term) *Term {
 	}
 	nt := mk(t.K, t.S, t.Obj, t.Typ, args...)
 	nt.Fn = t.Fn
-	if r, ok := rep[nt.key]; ok {
-		return r
+	if r, ok := rep[nt.key]; ok && r.key != nt.key && depth <= 6 {
+		return rewriteArgs(r, rep, depth+1)
 	}
 	return nt
 }
@@ -1113,3 +1143,5 @@ func (d *Disj) EqualTerms(t *Term) []*Term {
 	sort.Slice(out, func(i, j int) bool { return out[i].key < out[j].key })
 	return out
 }
+
+var congruence = os.Getenv("ASV_CONGRUENCE") != "0"
